@@ -26,6 +26,13 @@ func (v *Vue) evalAttributes(ctx VueContext, n *html.Node) (map[string]any, erro
 		key := a.Key
 		val := strings.TrimSpace(a.Val)
 
+		// The internal v-html / v-text carriers hold evaluated content (data),
+		// which must never be interpolated as template code
+		if key == "data-v-html-content" || key == "data-v-text-content" {
+			newAttrs = append(newAttrs, html.Attribute{Key: key, Val: val})
+			continue
+		}
+
 		boundValue := val
 		boundName := key
 		// literal bindings
